@@ -1,6 +1,7 @@
 """Path exploration by replay, path conditions, obligations, solver back ends."""
 from __future__ import annotations
 
+import os
 import subprocess
 import zlib
 import tempfile
@@ -195,6 +196,13 @@ class State:
             f = f.e
         if z3.is_true(f):
             return
+        # the same formula again (z3 terms are hash-consed: equal formulas have equal ids, and the path condition keeps
+        # every assumed formula alive): nothing to add -- instantiation helpers assume the same axioms many times
+        fid = f.get_id()
+        seen = self.__dict__.setdefault("_assumed_ids", set())
+        if fid in seen:
+            return
+        seen.add(fid)
         if _has_quantifier(f):
             self.has_quant = True
             self.n_quantified += 1
@@ -562,8 +570,20 @@ class State:
         self.trace.append(ev)
 
 
+_HQ_PROBE = None
+
+
 def _has_quantifier(f, cap=4000):
-    """Does the z3 formula contain a quantifier? (bounded search; a huge formula counts as 'yes')"""
+    """Does the z3 formula contain a quantifier?  Asked of z3 itself (probe `has-quantifiers`: a cached flag of the
+    AST, constant time in practice); the Python walk below is the fallback for a non-boolean term
+    (bounded search; there a huge formula counts as 'yes')."""
+    global _HQ_PROBE
+    if z3.is_expr(f) and z3.is_bool(f):
+        if _HQ_PROBE is None:
+            _HQ_PROBE = z3.Probe("has-quantifiers")
+        g = z3.Goal()
+        g.add(f)
+        return _HQ_PROBE(g) != 0.0
     todo, seen = [f], set()
     while todo:
         e = todo.pop()
